@@ -13,6 +13,7 @@ from pymbolic.imperative.utils import get_dot_dependency_graph
 
 from ..core import check, short
 from ..gen import expr as G
+from ..gen import scale
 from ..ref import normal
 from .c08 import refsub
 
@@ -265,6 +266,20 @@ def c_fuse(ctx, case):
             return
         if not check_fusion(ctx, case, cur_a, B, fused, mapping, f"fusion{k}"):
             return
+        # the same operation under its earlier (still exported, deprecated) name
+        import warnings
+        from pymbolic.imperative.transform import fuse_instruction_streams_with_unique_ids
+        ctx.count("fusions_through_old_name")
+        try:
+            with warnings.catch_warnings():
+                warnings.simplefilter("ignore")
+                fused2, mapping2 = fuse_instruction_streams_with_unique_ids(wrap[1](cur_a), wrap[2](B))
+        except Exception as ex:  # noqa: BLE001
+            ctx.fail("C20.fuse", case, f"old-name-raised:{type(ex).__name__}",
+                     f"fuse_instruction_streams_with_unique_ids raised {type(ex).__name__}: {ex}")
+            return
+        if not check_fusion(ctx, case, cur_a, B, fused2, mapping2, f"fusion{k}-old-name"):
+            return
         hist.append(mapping)
         # history: next round fuses the original b into the already fused stream, or the fused
         # stream into the original a
@@ -446,6 +461,35 @@ def workload(ctx):
         if i < 1:
             ctx.sample("dot-graph", {"order": order, "edges": sorted(edges)})
         ctx.run("C20.dot", (order, edges))
+    # scale: chains of 9 .. 130 statements with shortcut edges, listed forwards, backwards
+    # (dependents first) and shuffled; long streams with many clashing ids
+    for n in scale.WIDTHS:
+        for mode in ("forward", "reversed", "shuffled"):
+            if not ctx.mine("long-dot"):
+                continue
+            nodes = [f"s{k}" for k in range(n)]
+            edges = [(nodes[k + 1], nodes[k]) for k in range(n - 1)]
+            edges += [(nodes[n - 1], nodes[0]), (nodes[n // 2], nodes[0]), (nodes[n - 1], nodes[n // 3])]
+            for _ in range(rng.randint(0, 4)):
+                a, b = sorted(rng.sample(range(n), 2))
+                if b - a >= 2:
+                    edges.append((nodes[b], nodes[a]))
+            edges = sorted(set(edges))
+            order = list(nodes)
+            if mode == "reversed":
+                order.reverse()
+            elif mode == "shuffled":
+                rng.shuffle(order)
+            ctx.case(("dot", tuple(order), tuple(edges)), True, n=0)
+            ctx.count("long_chains")
+            ctx.run("C20.dot", (order, edges))
+        if ctx.mine("long-fuse") and n <= 70:
+            longpool = idpool + [f"t{k}" for k in range(90)] + [f"t{k}_0" for k in range(40)]
+            A = rstream(rng, n, longpool)
+            B = rstream(rng, n // 2 + 1, longpool)
+            ctx.count("long_streams")
+            ctx.run("C20.fuse", ([to_spec(s_) for s_ in A], [to_spec(s_) for s_ in B], 2))
+            ctx.run("C20.disambiguate", ([to_spec(s_) for s_ in A], [to_spec(s_) for s_ in B], None))
     if ctx.thorough:
         for n in range(1, 6):
             nodes = [f"s{k}" for k in range(n)]
@@ -458,6 +502,9 @@ def workload(ctx):
                     ctx.case(("dot", tuple(order), tuple(sorted(edges))), n >= 2, n=0)
                     ctx.run("C20.dot", (list(order), edges))
         ctx.set_exhaustive("all DAGs on <= 5 nodes, forward and reversed listing")
+    ctx.floor("long_chains", 60)
+    ctx.floor("long_streams", 15)
+    ctx.floor("fusions_through_old_name", 1500)
     ctx.floor("rw_checks", 3000)
     ctx.floor("fusions", 1500)
     ctx.floor("disambiguations", 2000)
